@@ -208,11 +208,15 @@ pub struct CorridorOpts {
     /// probability of a corridor whose interior stages are short (0.6-1.4 km): a train that
     /// ends its run on an interior stage then straddles several segments
     pub p_short_ends: f64,
+    /// probability that the two easternmost stages are short single-track segments (0.6-1.2 km):
+    /// an eastbound train then ends its run straddling three or more segments; westbound trains
+    /// of the main line need an intermediate origin there
+    pub p_short_east: f64,
 }
 
 impl Default for CorridorOpts {
     fn default() -> Self {
-        Self { max_stages: 7, min_seg: 1500.0, max_seg: 20000.0, min_terminal: 2500.0, p_yard: 0.7, p_lockout: 0.0, p_branch: 0.0, p_short_ends: 0.0 }
+        Self { max_stages: 7, min_seg: 1500.0, max_seg: 20000.0, min_terminal: 2500.0, p_yard: 0.7, p_lockout: 0.0, p_branch: 0.0, p_short_ends: 0.0, p_short_east: 0.0 }
     }
 }
 
@@ -253,6 +257,16 @@ pub fn gen_corridor(g: &mut Gen, o: &CorridorOpts) -> CorridorSpec {
         let max_rise = 0.008 * main.length.min(side.as_ref().map(|s| s.length).unwrap_or(main.length));
         let rise = if g.bool(0.3) { 0.0 } else { (g.f64(-max_rise, max_rise) * 10.0).round() / 10.0 };
         stages.push(StageSpec { main, side, rise });
+    }
+    if o.p_short_east > 0.0 && n >= 4 && g.bool(o.p_short_east) {
+        for st in stages.iter_mut().skip(n - 2) {
+            st.side = None;
+            st.main.length = (g.f64(400.0, 1000.0) / 100.0).round() * 100.0;
+            st.main.bump = None;
+            let max_rise = 0.008 * st.main.length;
+            st.rise = st.rise.clamp(-max_rise, max_rise);
+            st.rise = (st.rise * 10.0).round() / 10.0;
+        }
     }
     let sidings: Vec<usize> = stages.iter().enumerate().filter(|(_, s)| s.side.is_some()).map(|(i, _)| i).collect();
     let lockout_stage = if !sidings.is_empty() && g.bool(o.p_lockout) { Some(sidings[g.idx(sidings.len())]) } else { None };
